@@ -135,6 +135,25 @@ print("CONFIRMED" if bad else "NOT-CONFIRMED")
 """
 
 
+def jacobian_is_derivative_of_field(chk):
+    """J(x) == D f(x) entry by entry on the real functions (one obligation; used by C03, whose STM statement rests on it)"""
+    import hiten.algorithms.dynamics.rtbp as rtbp
+
+    def th():
+        x, y, z, vx, vy, vz = xs = sp.symbols("x y z vx vy vz", real=True)
+        mu = sp.Symbol("mu", positive=True)
+        with exact(decide=_decide_far_from_primaries) as alg:
+            red = Reducer(alg)
+            f = vals(rtbp._crtbp_accel(xarr(xs), X(mu)))
+            J = vals(rtbp._jacobian_crtbp(X(x), X(y), X(z), X(mu)))
+            for i in range(6):
+                for j in range(6):
+                    require_identity(red, J[i][j], total_diff(f[i], xs[j], alg), symbols=list(xs) + [mu],
+                                     key_prefix=f"J[{i}][{j}]-D{j}f{i}", replay_builder=lambda pt, i=i, j=j: _replay_jac(i, j, pt))
+    chk.obl("_jacobian_crtbp == derivative of _crtbp_accel (all 36 entries, symbolic state and mu)", "K1 identity",
+            [RT + ":_jacobian_crtbp", RT + ":_crtbp_accel"], "B3 sympy normal form", th)
+
+
 def run(chk):
     loader.install()
     _systems_in_a_row(chk)
